@@ -29,3 +29,13 @@ Theorem C15_answered_operation_is_retired :
   execute_operation {| h_st := h_st h; h_tr := [] |} x' = RErr {| h_st := h_st h; h_tr := [] |}.
 Proof. exact answered_operation_is_retired. Qed.
 Print Assumptions C15_answered_operation_is_retired.
+
+(* "processed" (nothing goes to the board) is the answer to a reinit operation only: offered for any
+   other pending operation it is refused and the operation stays pending (since fix a91c0a0; before
+   it such a file retired the operation with nothing posted) *)
+Theorem C15_processed_event_only_for_reinit :
+  forall st x stored,
+  find (op_same_id (ox_ident x)) (ops_visible st) = Some stored ->
+  ox_event x = ev_processed -> op_type stored <> ev_reinit ->
+  execute_operation {| h_st := st; h_tr := [] |} x = RErr {| h_st := st; h_tr := [] |}.
+Proof. exact processed_event_only_for_reinit. Qed.
